@@ -299,16 +299,19 @@ func scenarios(check string) []scenario {
 		add("frost-keygen", 4, 2, 0)
 		add("frost-sign", 4, 2, 0)
 	}
-	// order: the small targeted scenarios first, then the cheap protocols, then the large catalogues of the expensive
-	// ones - an internal deadline, if ever reached (machine under load), cuts the bulk and not the targeted cases
+	// order: the cheap protocols first (their complete catalogues take seconds), then the small targeted scenarios of
+	// the expensive protocols, then the large catalogues of the expensive ones - an internal deadline, if ever reached
+	// (machine under load), cuts the bulk and neither the cheap protocols nor the targeted cases
 	rank := func(sc scenario) int {
 		switch {
-		case sc.StartOnly || sc.CommittedOnly || sc.StateOnly || len(sc.OnlyPaths) > 0 || len(sc.OnlyOps) > 0:
+		case sc.Cost < 1:
 			return 0
-		case sc.Cost < 2:
+		case sc.StartOnly || sc.CommittedOnly || sc.StateOnly || len(sc.OnlyPaths) > 0 || len(sc.OnlyOps) > 0:
 			return 1
+		case sc.Cost < 2:
+			return 2
 		}
-		return 2
+		return 3
 	}
 	sort.SliceStable(l, func(a, b int) bool { return rank(l[a]) < rank(l[b]) })
 	return l
